@@ -5,6 +5,7 @@ import GfsModel.Sequence
 import GfsModel.SeqOps
 import GfsSpec.Enum
 import GfsProofs.SeqLemmas
+import GfsProofs.SeqHist
 import GfsProofs.IndexLemmas
 import GfsGen.Facts
 import GfsModel.ExpectedSrc
@@ -91,6 +92,43 @@ theorem C12_split (st : PadStyle) (txt : Bytes) (s : Seq) (ops : List SeqOp)
         p.ext = (s.run ops).ext ∧ p.frameSet.isSome = true) ∧
     dedupFirst (((s.run ops).split).flatMap Seq.frames) = fs.frames :=
   split_spec _ fs hfs (C12_history_reparses st txt s ops h hops fs hfs)
+
+/-- EVERY history — including SetFrameSet(Normalize()) and SetFrameSet(Invert()), which install
+    a frame set printed from blocks — keeps the frame set well formed and such that re-creating
+    it from its range string, when that succeeds, gives the same frames. -/
+theorem C12_history_sound (st : PadStyle) (txt : Bytes) (s : Seq) (ops : List SeqOp)
+    (h : Seq.parse st txt = .ok s) : Seq.Sound (s.run ops) :=
+  run_sound s ops (parse_sound st txt s h)
+
+/-- … hence after every history Copy has the same dirname, basename, extension, pad, pad width
+    and pad style, the same range string and the same frames, the same number of frames and
+    the same file path at every index (for ALL histories, no exclusion; when a printed number
+    does not fit an int the re-parse fails and Copy keeps the frame set it has). -/
+theorem C12_copy_any (st : PadStyle) (txt : Bytes) (s : Seq) (ops : List SeqOp)
+    (h : Seq.parse st txt = .ok s) :
+    let r := s.run ops
+    r.copy.dir = r.dir ∧ r.copy.base = r.base ∧ r.copy.ext = r.ext ∧ r.copy.pad = r.pad ∧
+    r.copy.zfill = r.zfill ∧ r.copy.style = r.style ∧
+    r.copy.frameSet.map FrameSet.frames = r.frameSet.map FrameSet.frames ∧
+    r.copy.frameSet.map FrameSet.frange = r.frameSet.map FrameSet.frange ∧
+    r.copy.len = r.len ∧ ∀ i, r.copy.index i = r.index i := by
+  intro r
+  have hs := C12_history_sound st txt s ops h
+  obtain ⟨h1, h2, h3, h4, h5, h6, h7, h8⟩ := copy_sound r hs
+  obtain ⟨h9, h10⟩ := copy_paths r hs
+  exact ⟨h1, h2, h3, h4, h5, h6, h7, h8, h9, h10⟩
+
+/-- non-vacuity: a history with both derived calls -/
+example : SeqOp.derived .invertSet = true ∧ SeqOp.derived .normalize = true ∧
+    (∃ s, Seq.parse .hash4 "/d/b.1-5,9#.exr".toList = .ok s) := by
+  refine ⟨rfl, rfl, ?_⟩
+  cases h : Seq.parse .hash4 "/d/b.1-5,9#.exr".toList with
+  | ok s => exact ⟨s, rfl⟩
+  | error e =>
+    have : (match Seq.parse .hash4 "/d/b.1-5,9#.exr".toList with | .ok _ => true | .error _ => false) = true := by
+      decide
+    rw [h] at this
+    cases this
 
 theorem C12_split_no_frames (s : Seq) (h : s.frameSet = none) : s.split = [s] := split_none s h
 
